@@ -44,7 +44,8 @@ def dumpModule (m : Module) : List String :=
     s!"ins {i} {x.subs.length} {toHex x.name} {km}" ::
       x.subs.zipIdx.map fun (s, j) => s!"sub {i} {j} {s.sid} {s.vol} {s.pan} {s.xpo} {s.fin}"
   let smps := m.smps.zipIdx.map fun (s, i) =>
-    s!"smp {i} {s.len} {s.lps} {s.lpe} {s.flg} {s.sus} {s.sue} {toHex s.name} {toHex s.pcm}"
+    let pcm := if s.pcm.isEmpty ∧ s.len > 0 then "null" else toHex s.pcm
+    s!"smp {i} {s.len} {s.lps} {s.lpe} {s.flg} {s.sus} {s.sue} {toHex s.name} {pcm}"
   [s!"name {toHex m.name}", counts, s!"ord {toHex m.orders}"] ++ pats ++ ins ++ smps
 
 /-! ### PRNG (xorshift64*) and generators -/
